@@ -46,6 +46,7 @@ type scenario struct {
 	// accessor-subject: subject = result of getter Acc on (element of) Param
 	Acc  *types.Var
 	Acc2 *types.Var // second getter for order scenarios on one element
+	NonEmpty int    // 1 + index of a list parameter assumed non-empty (0 = none)
 }
 
 func (s scenario) String() string {
@@ -115,6 +116,7 @@ type simCtx struct {
 	sc   scenario
 	loop *sliceRange // for Elem subjects: the loop whose element is the subject
 	depth int
+	phiBusy map[*ssa.Phi]bool
 }
 
 // subject matching ---------------------------------------------------------
@@ -326,6 +328,14 @@ func (c *simCtx) oracle(cond ssa.Value) (bool, bool) {
 }
 
 func (c *simCtx) evalBoolPhi(p *ssa.Phi) (bool, bool) {
+	if c.phiBusy == nil {
+		c.phiBusy = map[*ssa.Phi]bool{}
+	}
+	if c.phiBusy[p] || len(c.phiBusy) > 6 {
+		return false, false
+	}
+	c.phiBusy[p] = true
+	defer delete(c.phiBusy, p)
 	// short-circuit && / ||: evaluate the feasible incoming edges
 	reach := simulate(c.f.Blocks[0], nil, func(v ssa.Value) (bool, bool) {
 		if v == ssa.Value(p) {
@@ -704,6 +714,13 @@ func (c *simCtx) explore(start *ssa.BasicBlock, stop map[*ssa.BasicBlock]bool) m
 	if c.sc.Kind == scParseFail || c.sc.Kind == scArity {
 		for _, sr := range findSliceRanges(c.f) {
 			if c.splitOfSubject(sr.X) {
+				blocked[sr.Header] = sr.Done
+			}
+		}
+	}
+	if c.sc.NonEmpty > 0 && c.sc.NonEmpty-1 < len(c.f.Params) {
+		for _, sr := range findSliceRanges(c.f) {
+			if resolve(sr.X) == ssa.Value(c.f.Params[c.sc.NonEmpty-1]) {
 				blocked[sr.Header] = sr.Done
 			}
 		}
